@@ -7,8 +7,11 @@ package main
 
 import (
 	"fmt"
+	"path"
 	"strings"
 )
+
+func pathClean(p string) string { return path.Clean(p) }
 
 type Gen struct {
 	R           *SplitMix
@@ -25,7 +28,9 @@ type Gen struct {
 	Links       bool // file ops also create symlinks (C20)
 	RepeatPct   int  // percent of result attachments that are repeated verbatim
 	AimPct      int  // percent of commands found by searching the model for a rare outcome class (aim.go)
+	IOPct       int  // percent of mutating commands that meet an I/O error (short write + ENOSPC, EIO on read, EMFILE on open)
 	lastRes     *Cmd
+	rewrote     bool
 	wantCompact bool
 	// avoid triggers of open known findings in most runs (see DESIGN 5)
 	Avoid map[string]bool
@@ -206,6 +211,21 @@ func (g *Gen) Next(m *Model) Step {
 			st.ForceID = ref
 		}
 	}
+	if c := st.Cmd; c != nil && !c.IsRead() && g.IOPct > 0 && g.R.Intn(100) < g.IOPct {
+		f := &IOFault{}
+		switch g.R.Intn(4) {
+		case 0, 1:
+			f.Call, f.Errno = "write", []int{28, 28, 5, 122}[g.R.Intn(4)] // ENOSPC EIO EDQUOT
+			if g.R.Chance(2, 3) {
+				f.Short = 1 + g.R.Intn(300)
+			}
+		case 2:
+			f.Call, f.Errno, f.Nth = "read", 5, g.R.Intn(2)
+		case 3:
+			f.Call, f.Errno, f.Nth = "openat", []int{24, 5, 28}[g.R.Intn(3)], g.R.Intn(2) // EMFILE EIO ENOSPC
+		}
+		st.IO = f
+	}
 	if c := st.Cmd; c != nil && c.Mode != "" && c.Mode != "json" {
 		// text that travels in argv cannot contain NUL (no caller can pass one)
 		strip := func(p *string) {
@@ -237,6 +257,14 @@ func (g *Gen) next(m *Model) Step {
 	// same task, possibly with another summary, then often a compaction
 	if g.lastRes != nil && g.RepeatPct > 0 {
 		if g.R.Intn(100) < g.RepeatPct {
+			if g.lastRes.RPath != nil && !g.rewrote && g.R.Chance(1, 3) {
+				// the attached file changes (same length or not) while its mtime
+				// stays; the next attachment must hash the new content
+				g.rewrote = true
+				p := strings.TrimPrefix(pathClean(*g.lastRes.RPath), "./")
+				return Step{File: &FileOp{Path: p, Kind: "file", KeepMeta: true, Content: fmt.Sprintf("REWRITTEN %d with enough content to be longer than any link target\n", g.R.Intn(10))}}
+			}
+			g.rewrote = false
 			c := *g.lastRes
 			if g.R.Chance(1, 2) {
 				c.RSum = sp(g.text("title"))
